@@ -78,8 +78,7 @@ class OrderedSet(collections.abc.MutableSet):
     def __xor__(self, other):
         # order by self, then other (the inherited operator lets another set, e.g. a keys view, answer with a plain set)
         assert not isinstance(other, str)  # treat string as atomic value, not iterable
-        if not isinstance(other, Iterable):
-            return NotImplemented
+        iter(other)  # TypeError for what can not be iterated (None is not the empty set)
         other = OrderedSet(other)
         return OrderedSet(
             [e for e in self if e not in other] + [e for e in other if e not in self]
